@@ -275,6 +275,10 @@ def gen_stream_fault(rng, raw, kinds):
         else:
             pos = rng.randrange(len(w['ids']))
         pool = bufrgen.undefined_element_ids() if kind == 'undef_el' else bufrgen.undefined_sequence_ids()
+        if kind == 'undef_el' and rng.random() < 0.3:
+            pool = bufrgen.special_undefined_element_ids() or pool
+            if rng.random() < 0.5:
+                pos = len(w['ids']) - 1         # e.g. 000000 as the last descriptor: not padding, a descriptor
         return {'kind': 'undef', 'pos': pos, 'id': rng.choice(pool), 'sub': kind}
     if kind in ('len-', 'len+'):
         sec = rng.choice(sorted(w['sections']))
@@ -461,6 +465,8 @@ def _gen_plan(family, rng, pool, tier):
             knobs['kin'] = True
         if front == 'api' and rng.random() < 0.25:
             knobs['wire'] = False       # no hierarchical structure is built (what decode -m does)
+        if front == 'api' and flt and rng.random() < 0.2:
+            knobs['script_first'] = True
         return {'knobs': knobs, 'items': items, 'seps': seps}
 
     if family == 'c11-big':
@@ -605,6 +611,11 @@ def _gen_plan(family, rng, pool, tier):
         for p in range(len(w['ids'])):
             faults.append({'kind': 'undef', 'pos': p, 'id': rng.choice(uel), 'sub': 'undef_el'})
             faults.append({'kind': 'undef', 'pos': p, 'id': rng.choice(useq), 'sub': 'undef_seq'})
+        for sid in bufrgen.special_undefined_element_ids():
+            # ids at the edges of the id space at the two ends of the list
+            for p in sorted(set([0, len(w['ids']) - 1])):
+                if w['ids']:
+                    faults.append({'kind': 'undef', 'pos': p, 'id': sid, 'sub': 'undef_el'})
         for sec in sorted(w['sections']):
             l = w['sections'][sec][1]
             for k in sorted(set([1, 2, 3, 4, 8, max(1, l // 2)])):
@@ -888,6 +899,16 @@ def exec_stream(plan):
             wm = kn['warm']
             dec.process(bytes.fromhex(wm['hex']), info_only=(wm['how'] == 'info'),
                         ignore_value_expectation=(wm['how'] == 'ive'))
+        if kn.get('script_first') and kn.get('filter') and plan['items']:
+            # somebody tried the text of the filter out as a script before (pybufrkit script, same process):
+            # whatever the script machinery remembers about a text must not reach the filter of the scan
+            try:
+                from pybufrkit.script import ScriptRunner
+                m0 = Decoder().process(bytes.fromhex(plan['items'][0]['hex']), info_only=True)
+                ScriptRunner(kn['filter']['expr']).run(m0)
+                ScriptRunner('x = ' + kn['filter']['expr']).run(m0)
+            except Exception:
+                pass
         from sim.observe import section_params
         kept = []
         try:
